@@ -141,6 +141,12 @@ def build_yieldgen():
         return binp
 
 
+# VERIF_COVER=1 (tools/coverage.sh): statement coverage of the library under the correspondence runs
+COVER = os.environ.get("VERIF_COVER") == "1"
+COVER_BUILD = ["-cover", "-coverpkg=./snaps,./match,./internal/difflib,./internal/colors"] if COVER else []
+_cover_n = [0]
+
+
 def build_go(tag, instrument=False, race=False):
     """Builds the white-box harness test binary for ./snaps from REPO's current working tree.
     instrument=True: the library sources are replaced (overlay) by yield-instrumented copies."""
@@ -169,7 +175,7 @@ def build_go(tag, instrument=False, race=False):
     bins = {}
     for pkg in sorted(set(p for p, _ in OVERLAYS.values())):
         binp = os.path.join(out_dir, pkg.replace("/", "_") + ".test")
-        p = run(["go", "test", "-c", "-tags", "verif", "-overlay", ov, "-vet=off"] + (["-race"] if race else []) + ["-o", binp, "./" + pkg],
+        p = run(["go", "test", "-c", "-tags", "verif", "-overlay", ov, "-vet=off"] + (["-race"] if race else []) + COVER_BUILD + ["-o", binp, "./" + pkg],
                 cwd=REPO, env=GOENV, check=False, timeout=900)
         if p.returncode != 0:
             raise BuildError("go harness build failed for ./%s:\n%s" % (pkg, p.stdout[-4000:]))
@@ -193,7 +199,13 @@ def run_impl(binp, cases, workdir, shards=None, test="^TestVerifTrace$", timeout
             for c in part:
                 fh.write(json.dumps({k: v for k, v in c.items() if k != "meta"}) + "\n")
         env = dict(os.environ, VERIF_IN=fin, VERIF_OUT=fout, TMPDIR=workdir)
-        procs.append((subprocess.Popen([binp, "-test.run", test, "-test.count=1"], env=env, cwd=workdir,
+        covarg = []
+        if COVER:
+            _cover_n[0] += 1
+            cd = os.path.join(BUILD, "cover")
+            os.makedirs(cd, exist_ok=True)
+            covarg = ["-test.coverprofile=" + os.path.join(cd, "%s-%d-%d.out" % (os.path.basename(workdir), os.getpid(), _cover_n[0]))]
+        procs.append((subprocess.Popen([binp, "-test.run", test, "-test.count=1"] + covarg, env=env, cwd=workdir,
                                        stdout=subprocess.PIPE, stderr=subprocess.STDOUT, text=True), fout))
     texts = {}
     for p, fout in procs:
